@@ -118,6 +118,40 @@ func genC12(t *rapid.T, excluded *int) C12Case {
 			c.Ops = append(c.Ops, C12Op{K: "delay", F: f, US: rapid.SampledFrom([]int{0, 200, 2000}).Draw(t, label+".us")})
 		}
 	}
+	// A fault that only matters when the tables of one stream sit at different
+	// persisted offsets needs several steps in the right order; a third of the
+	// cases with two tables and pinned timers append such a sequence (with
+	// generated lengths, follower and table) to whatever was drawn above.
+	if len(c.Data.Schema.Tables) >= 2 && c.NoTimer && rapid.IntRange(0, 2).Draw(t, "stagger") == 0 {
+		f := rapid.IntRange(0, nf-1).Draw(t, "stagger.f")
+		tbl := c.Data.Schema.Tables[rapid.IntRange(0, 1).Draw(t, "stagger.tbl")].Name
+		burst := func(label string) {
+			k := rapid.IntRange(1, 5).Draw(t, label+".n")
+			for j := 0; j < k; j++ {
+				p := h.GenPoint(t, cfg, &c.Data.Schema, cfg.MaxPeriods, fmt.Sprintf("%s.p%d", label, j))
+				c.Ops = append(c.Ops, C12Op{K: "ins", P: &p, Leader: rapid.IntRange(0, c.Conf.Leaders-1).Draw(t, fmt.Sprintf("%s.l%d", label, j))})
+			}
+		}
+		if down[f] {
+			c.Ops = append(c.Ops, C12Op{K: "start", F: f})
+			down[f] = false
+		}
+		burst("stagger.a")
+		c.Ops = append(c.Ops, C12Op{K: "barrier"}, C12Op{K: "flush", F: f})
+		burst("stagger.b")
+		c.Ops = append(c.Ops, C12Op{K: "barrier"}, C12Op{K: "flush", F: f, Table: tbl})
+		if rapid.Bool().Draw(t, "stagger.img") {
+			c.Ops = append(c.Ops, C12Op{K: "snap", F: f})
+			burst("stagger.c")
+			c.Ops = append(c.Ops, C12Op{K: "restore", F: f})
+		} else {
+			// an unclean stop is not available in-process; cut, keep inserting, restore
+			c.Ops = append(c.Ops, C12Op{K: "cut", F: f, Leader: 0})
+			burst("stagger.c")
+			c.Ops = append(c.Ops, C12Op{K: "snap", F: f}, C12Op{K: "restore", F: f}, C12Op{K: "uncut", F: f, Leader: 0})
+		}
+		burst("stagger.d")
+	}
 	nq := rapid.IntRange(1, 2).Draw(t, "nq")
 	for i := 0; i < nq; i++ {
 		tbl := c.Data.Schema.Tables[rapid.IntRange(0, len(c.Data.Schema.Tables)-1).Draw(t, fmt.Sprintf("qt%d", i))].Name
